@@ -80,8 +80,8 @@ def outToStr (c : Cfg) (op : Op) : String :=
   | .tableau tb => tabToStr tb
   | .stepped r =>
     let errs := match op, butcher c.method, c.bound with
-      | .makeStep y h, some tb, _ => fsToStr (makeStepErrs (fun _ y => accel c.bodies y) tb c.step c.tol 0.0 y maxIter h)
-      | .stepBound h, some tb, some (_, y) => fsToStr (makeStepErrs (fun _ y => accel c.bodies y) tb c.step c.tol 0.0 y maxIter h)
+      | .makeStep y h, some tb, _ => fsToStr (makeStepErrs c.field tb c.step c.tol 0.0 y maxIter h)
+      | .stepBound h, some tb, some (_, y) => fsToStr (makeStepErrs c.field tb c.step c.tol 0.0 y maxIter h)
       | _, _, _ => ""
     match r with
     | some (h', y') => fsToStr (h' :: y') ++ " | " ++ errs
